@@ -81,7 +81,42 @@ CHECKS = {
             "a refused operation changes nothing, an operation on one graph leaves the other's facts/rules/schemas alone (Isolated), "
             "a dropped graph is gone after the drop and after every later restart, a re-created graph starts empty. MC_Store checks "
             "DropFinal and KGIsolation on the abstract machine.",
-            "The concurrent part (insert racing drop + re-create) is not covered by this check yet. " + TB, "7 C17"),
+            "Concurrent part (engine sched, run first by bin/check C17): every interleaving, at the cfg-guarded scheduling points, of "
+            "an insert into h with drop h + create h (TLC-enumerated by MC_Sched_D) is forced on real threads; SchedTrace accepts iff "
+            "after the acknowledged drop none of the old incarnation's tuples is served or recovered and graph g is untouched. "
+            "Interleaving granularity = the scheduling points. " + TB, "7 C17"),
+    "C15": ("sched", "TLC-enumerated thread interleavings (MC_Sched.tla) forced on real threads at cfg-guarded scheduling points; "
+            "crash images reopened by real recovery; judged by SchedTrace.tla against Store.tla",
+            "model_checking",
+            "Workloads: two writers + a flusher on one shard, insert racing delete of one tuple, two writers with buffer_size 1 "
+            "(flush inside append), insert racing drop + re-create. MC_Sched enumerates every interleaving of the threads over the "
+            "scheduling points (after logical time, after WAL append, after buffer insertion, after persist, flush/compact start); "
+            "all of them, or a seeded sample of the tier's budget, are forced on real threads by the harness controller. Accepted iff "
+            "the served state is the result of a serial order of the acknowledged operations consistent with the call/return order "
+            "(Serializable), every crash image (copy of the data directory while all threads are parked: end of run + 2 random steps, "
+            "thorough: every step) reopens to a state containing every operation acknowledged before it under some serial order of "
+            "acknowledged + in-flight operations (Durable), and the final image recovers exactly the served state.",
+            "Interleavings at the granularity of the scheduling points only (not every instruction); crash images are plain copies "
+            "(no torn-write model here; that is C13). 2-3 threads, one operation each (two for the dropper). " + TB, "7 C15"),
+    "C19": ("store-replay", "random histories on the real engine with a consistent read of the incremental engine after every step "
+            "(StoreTrace.tla) + TLC-enumerated reader/writer interleavings forced on real threads (SchedTrace.tla)",
+            "model_checking",
+            "Sequential part: random insert/delete histories (duplicates, absent deletes, two relations, save/compact/restart "
+            "re-enabling) with incremental maintenance on; after every step IncrementalEngine::read_relation_consistent of each base "
+            "relation must equal the relation served by the store (set equality, no duplicates). Concurrent part (engine sched, run "
+            "first by bin/check C19): two writers and a reader doing two consistent reads, every interleaving at the scheduling points "
+            "(MC_Sched_R, sampled to the tier's budget); each read must succeed and equal the relation after some prefix-closed set of "
+            "the writes that contains every write acknowledged before the read was called.",
+            "Interleaving granularity = scheduling points of the write path (the reader is atomic). " + TB, "7 C19"),
+    "C20": ("sched", "TLC-enumerated writer/query interleavings (MC_Sched.tla) forced on real threads; query observations judged by "
+            "SchedTrace!PrefixOK",
+            "model_checking",
+            "A client thread that inserts one tuple and then queries, against a writer inserting a two-tuple batch: every "
+            "interleaving at the scheduling points (462 schedules, MC_Sched_Q; sampled to the budget in quick). A query observation is "
+            "accepted iff it equals the relation after a set of operations that contains every operation acknowledged before the "
+            "query was called (including the client's own write), contains no operation called after the query returned, and applies "
+            "each batch entirely or not at all.",
+            "Facts only (no rule registrations in the interleaved workload); one query relation. " + TB, "7 C20"),
     "C13": ("fs-crash", "crash images at every real syscall boundary (strace + fsreplay) judged by StoreTrace!Crash / Store!CrashOK",
             "model_checking",
             "The real engine performs seeded histories under strace (no hook in the persistence code). Every file-system mutation "
@@ -210,7 +245,11 @@ ENGINES.append({"name": "laws", "path": "tools/eng_laws.py", "serves_properties"
                                   "IndexTrace.tla, VecIndexTrace.tla, LawsTrace.tla"})
 ENGINES.append({"name": "proof", "path": "tools/eng_proof.py", "serves_properties": ["C21", "C22", "C23"],
                 "kind_free_text": ".why / .why_not answers of the real Handler judged by spec/ProofTrace.tla over Datalog!Model"})
-ENGINES.append({"name": "store-replay", "path": "tools/eng_store.py", "serves_properties": ["C11", "C12", "C14", "C17"],
+ENGINES.append({"name": "sched", "path": "tools/eng_sched.py", "serves_properties": ["C15", "C17", "C19", "C20"],
+                "kind_free_text": "spec/MC_Sched.tla enumerates thread interleavings over the cfg-guarded scheduling points; the harness "
+                                  "controller forces each on real threads and takes crash images; spec/SchedTrace.tla judges "
+                                  "serializability, durability and read prefixes against Store.tla"})
+ENGINES.append({"name": "store-replay", "path": "tools/eng_store.py", "serves_properties": ["C11", "C12", "C14", "C17", "C19"],
                 "kind_free_text": "spec/MC_Store.tla enumerates histories of the abstract store machine; harness replays them on the "
                                   "real StorageEngine; spec/StoreTrace.tla judges every observed step (Store!StepOK)"})
 
@@ -244,7 +283,7 @@ def main():
             "enable": "harness/.cargo/config.toml passes --cfg inputlayer_verif to every crate of the harness build "
                       "(path dependency on /repo)",
             "baseline_off_cmd": "cd /repo && cargo nextest run --workspace --no-fail-fast --offline --test-threads 8",
-            "source_commits": [],
+            "source_commits": ["363bcfa"],
             "add_only": True,
         },
         "engines": ENGINES,
